@@ -1970,6 +1970,9 @@ static void run_op(json_t *op)
 		}
 		slots[slot] = tok;
 		json_object_set_new(ev, "info", info);
+	} else if (!strcmp(name, "KeyGen")) {
+		/* fresh key material under a pool name (thorough tiers) */
+		pool_add(jstr(op, "name", "fresh"), fresh_key(jstr(op, "kind", "P-256"), (int)jint(op, "bits", 2048)));
 	} else if (!strcmp(name, "OpsEnv")) {
 		const char *v = getenv("JWT_CRYPTO");
 		json_object_set_new(ev, "env", json_string(v && is_plain_ascii(v) ? v : "~"));
